@@ -24,7 +24,7 @@ struct Mode {
     cmp: Cmp,
 }
 
-const MODES: [Mode; 20] = [
+const MODES: [Mode; 22] = [
     Mode { name: "validate -S all", cmp: Cmp::Lines },
     Mode { name: "validate -o json", cmp: Cmp::Bytes },
     Mode { name: "validate -o yaml", cmp: Cmp::Bytes },
@@ -46,6 +46,10 @@ const MODES: [Mode; 20] = [
     Mode { name: "validate --structured -o json (4 data files)", cmp: Cmp::Bytes },
     Mode { name: "validate --structured -o junit (4 data files)", cmp: Cmp::Junit },
     Mode { name: "validate -S all (4 data files)", cmp: Cmp::Lines },
+    // output written to a file that may exist already, with other content: what the file holds
+    // afterwards is compared
+    Mode { name: "parse-tree -p -o FILE", cmp: Cmp::Bytes },
+    Mode { name: "rulegen -o FILE", cmp: Cmp::Lines },
 ];
 
 fn argv(mode: usize, rules: &str, data: &str, spec: &str) -> Vec<String> {
@@ -74,6 +78,10 @@ fn argv(mode: usize, rules: &str, data: &str, spec: &str) -> Vec<String> {
             for k in 0..3 {
                 a.push("-d".into());
                 a.push(format!("{}.v{}.json", data, k));
+            }
+            if m >= 20 {
+                let out = format!("{}.out{}", data, m);
+                return if m == 20 { v(&["parse-tree", "-r", rules, "-p", "-o", &out]) } else { v(&["rulegen", "-t", data, "-o", &out]) };
             }
             a.extend(match m {
                 16 => v(&["--structured", "-o", "sarif", "-S", "none"]),
@@ -173,8 +181,22 @@ fn check(c: &Case, modes: &[usize], evals: &mut u64) -> Result<usize, (String, S
                 (format!("GV_IRRELEVANT_{}", run), "x".repeat(run * 7)),
             ];
             let cwd = if run % 2 == 0 { dir.clone() } else { std::path::PathBuf::from("/") };
+            // the output file of the -o modes: absent, long, short, long, absent
+            let out_file = if m >= 20 { Some(std::path::PathBuf::from(format!("{}.out{}", dps, m))) } else { None };
+            if let Some(f) = &out_file {
+                let _ = std::fs::remove_file(f);
+                match run {
+                    1 | 3 => write_file(f, &format!("{}\n", "# left over from an earlier, longer run\n".repeat(600))),
+                    2 => write_file(f, "short"),
+                    _ => {}
+                }
+            }
             *evals += 1;
-            let p = spawn_tool(&a, b"", &env, Some(&cwd), 60);
+            let mut p = spawn_tool(&a, b"", &env, Some(&cwd), 60);
+            if let Some(f) = &out_file {
+                // what the file holds now is this mode's output
+                p.out = std::fs::read(f).unwrap_or_default();
+            }
             if p.timed_out {
                 return Err((format!("{}: timed out", MODES[m].name), "c05:timeout".into()));
             }
@@ -543,7 +565,7 @@ fn random_case(u: &mut Choices, sz: Size) -> CaseResult {
 
 pub fn run(tier: Tier, seed: u64) -> i32 {
     let spec = EvidenceSpec {
-        rule: "Random wide programs (>=3 rules incl. one failing type block per resource type with three failing clauses, unique messages) on CloudFormation-shaped templates with >=3 resources, plus a two-case test spec. Every case is run 5 times as a fresh process of the real cfn-guard binary in each of 20 modes (validate: console -S all, -o json, -o yaml, --structured json/yaml/junit/sarif, -v, -p; test: console, json, yaml, junit; parse-tree -p / -y; rulegen; validate over the data file plus three variants of it as --structured sarif / json / junit and console) with HOME, TZ, LANG, the working directory and an extra variable changed between runs: equal exit status; structured outputs byte-identical (JUnit after masking time=\"..\"); console / plain-text outputs identical as multisets of lines; -p output split into the console part (multiset) and the JSON record (bytes). Additionally 5 in-process evaluations (run_checks verbose / non-verbose, validate --payload --structured sarif) interleaved with another case must be byte-identical. Stage 'environment': 30 fixed programs using functions and operators whose result could depend on the time zone or locale (parse_epoch on timestamps with and without offset, to_upper / to_lower on non-ASCII text, parse_float / parse_int on locale-formatted numbers, string ordering, case-insensitive regexes, references to rules that do not exist - the diagnostic lists the known names) run through the real binary under 6 environments (TZ as POSIX strings, LANG / LC_* / LANGUAGE, HOME): same exit status, stderr and output. Stage 'batch' (in process): a generated rule file x 2-3 documents (variants of one another) given to ONE validate --structured -o json invocation must report, as a multiset of file reports and in its exit code, exactly what the (rule file, document) pairs report when each is evaluated by an invocation of its own. Non-trivial (processes): >=3 rules and >=8 modes with multi-line output; distinct by hash of rules and data.".into(),
+        rule: "Random wide programs (>=3 rules incl. one failing type block per resource type with three failing clauses, unique messages) on CloudFormation-shaped templates with >=3 resources, plus a two-case test spec. Every case is run 5 times as a fresh process of the real cfn-guard binary in each of 22 modes (validate: console -S all, -o json, -o yaml, --structured json/yaml/junit/sarif, -v, -p; test: console, json, yaml, junit; parse-tree -p / -y; rulegen; validate over the data file plus three variants of it as --structured sarif / json / junit and console; parse-tree and rulegen writing to `-o FILE`, where FILE is absent, longer or shorter than the output before the run) with HOME, TZ, LANG, the working directory and an extra variable changed between runs: equal exit status; structured outputs byte-identical (JUnit after masking time=\"..\"); console / plain-text outputs identical as multisets of lines; -p output split into the console part (multiset) and the JSON record (bytes). Additionally 5 in-process evaluations (run_checks verbose / non-verbose, validate --payload --structured sarif) interleaved with another case must be byte-identical. Stage 'environment': 30 fixed programs using functions and operators whose result could depend on the time zone or locale (parse_epoch on timestamps with and without offset, to_upper / to_lower on non-ASCII text, parse_float / parse_int on locale-formatted numbers, string ordering, case-insensitive regexes, references to rules that do not exist - the diagnostic lists the known names) run through the real binary under 6 environments (TZ as POSIX strings, LANG / LC_* / LANGUAGE, HOME): same exit status, stderr and output. Stage 'batch' (in process): a generated rule file x 2-3 documents (variants of one another) given to ONE validate --structured -o json invocation must report, as a multiset of file reports and in its exit code, exactly what the (rule file, document) pairs report when each is evaluated by an invocation of its own. Non-trivial (processes): >=3 rules and >=8 modes with multi-line output; distinct by hash of rules and data.".into(),
         assumptions: vec![
             "colour-control variables (NO_COLOR) are held fixed: a documented feature of the colored crate".into(),
             "five runs miss an order leak over n>=3 entries with probability <= (1/6)^4 per case".into(),
